@@ -29,7 +29,7 @@
    generator on every generated text, the code-emission limits (jump/loop/constant-pool sizes). *)
 From Coq Require Import List NArith Arith Lia.
 From YVGen Require Import Consts Rules Tokens.
-From YV Require Import Utf8 Ast Scanner ScannerProofs ParserRules Parser ParseRun ParserProofs C03Run TotalityProofs FuelProofs ParserInv.
+From YV Require Import Utf8 Ast Scanner ScannerProofs ParserRules Parser ParseRun ParserProofs C03Run TotalityProofs FuelProofs ParserInv ScanSites ScanSitesProofs.
 Import ListNotations.
 
 (* ---------- the tables of the model are the tables of the current source ---------- *)
@@ -53,6 +53,24 @@ Proof. vm_compute; split; reflexivity. Qed.
    parser model and is exercised by the constants-boundary texts of the driver) *)
 Theorem C03_constants_through_make_constant : constant_insertions_gen = constant_insertions_ref.
 Proof. vm_compute; reflexivity. Qed.
+(* every byte position of scanner.rs is obtained the way the character-level scanner model assumes (regenerated:
+   slices, the lets that define their bounds, writes to self.current / self.start, the two position primitives,
+   unwrap() counts) - see ScanSites.v for why these rows make `C03_scan_no_bad_slice` a statement about the code *)
+Theorem C03_scanner_positions : scanner_positions_gen = scanner_positions_ref.
+Proof. vm_compute; reflexivity. Qed.
+(* the only byte arithmetic on positions - `self.start + k` in check_keyword / identifier_type - stays on character
+   boundaries: an identifier lexeme is ASCII, and every byte-offset sub-slice of an ASCII token exists *)
+Theorem C03_ident_lexeme_ascii : forall c r l r',
+  is_alpha c = true -> span_ident r = (l, r') -> forallb ascii_byte (c ++ l) = true.
+Proof. exact ident_lexeme_ascii. Qed.
+Theorem C03_ascii_token_slices : forall src st t start st',
+  reachable src st ->
+  scan_token_start st = (t, start, st') ->
+  lexeme_token (tk t) = true ->
+  forallb ascii_byte (tsource t) = true ->
+  forall i j, i <= j -> j <= length (tsource t) ->
+  slice src (start + i) (start + j) = Some (firstn (j - i) (skipn i (tsource t))).
+Proof. exact ascii_token_slices. Qed.
 Theorem C03_limits :
   YVGen.Consts.INTERPOLATION_DEPTH_MAX = N.of_nat Scanner.INTERPOLATION_DEPTH_MAX /\
   YVGen.Consts.LOCALS_MAX = N.of_nat Parser.LOCALS_MAX /\ YVGen.Consts.UPVALUES_MAX = N.of_nat Parser.UPVALUES_MAX.
@@ -152,6 +170,9 @@ Print Assumptions C03_rules_length.
 Print Assumptions C03_precedence_order.
 Print Assumptions C03_token_kinds.
 Print Assumptions C03_keywords.
+Print Assumptions C03_scanner_positions.
+Print Assumptions C03_ident_lexeme_ascii.
+Print Assumptions C03_ascii_token_slices.
 Print Assumptions C03_limits.
 Print Assumptions C03_constants_through_make_constant.
 Print Assumptions C03_keyword_table.
